@@ -543,7 +543,10 @@ def merged_view_is_current(ctx, rd):
 
     repo = ctx.repo
     oc = A.function_class(repo)
-    upd = A.update_method(repo)
+    try:
+        upd = A.update_method(repo)
+    except AnalysisError:
+        upd = None  # reported by the rule on mutators / linkback; the view is read without the notification
     b = A.build_method(repo)
     raw = repo.raw_methods(oc)
     init = raw.get("__init__")
@@ -582,7 +585,8 @@ def merged_view_is_current(ctx, rd):
         del base.__dict__["_defns"]["s1"]
         base.__dict__["_defns"]["s9"] = "base:s9"
         base.__dict__[b.name] = lambda *a, **k: None
-        hi.call_function(raw[upd.name], [base], {}, {})
+        if upd is not None:
+            hi.call_function(raw[upd.name], [base], {}, {})
         second = read(leaf)
     except (AnalysisError, Raised, TypeError, AttributeError, KeyError) as e:
         raise AnalysisError(f"{rd.key}: chain reading not interpretable: {e}")
@@ -592,7 +596,7 @@ def merged_view_is_current(ctx, rd):
         rd.loc(),
         "the effective table of a derived function reflects its ancestors' current tables on every read, also two levels up and without linkback (interpreted on base -> mid -> leaf)",
         first == want1 and second == want2,
-        f"after base dropped s1 and added s9 (and ran {upd.name}()), leaf's effective table reads {second!r} instead of {want2!r}: a derived function that is put to use after its ancestor changed dispatches over the ancestor's old method set" if first == want1 else f"leaf's effective table reads {first!r}, expected {want1!r}",
+        f"after base dropped s1 and added s9 (and ran its update method), leaf's effective table reads {second!r} instead of {want2!r}: a derived function that is put to use after its ancestor changed dispatches over the ancestor's old method set" if first == want1 else f"leaf's effective table reads {first!r}, expected {want1!r}",
     )
 
 
